@@ -661,3 +661,65 @@ impl World for VtimeWorld {
         Outcome { violations: vs, log_hash: log.0, nontrivial: plan.ops.len() >= 6 }
     }
 }
+
+
+// ---------------------------------------------------------------------------
+// Helpers for the `nfsthreads` world (w_threads.rs), which drives the same
+// module functions from several simulated threads.
+// ---------------------------------------------------------------------------
+
+pub struct NfsFixture {
+    pub dir: PathBuf,
+    pub paths: Vec<PathBuf>,
+    pub files: Vec<std::fs::File>,
+}
+
+/// Creates `n` files on the given devices with the given change times and
+/// registers the clock and file hooks.
+pub fn nfs_fixture(n: usize, devs: &[u64], now_ms: i128) -> NfsFixture {
+    register_hooks();
+    let dir = std::env::temp_dir().join(format!("woodpile-nfsthreads-{}", std::process::id()));
+    let _ = std::fs::create_dir_all(&dir);
+    let mut fx = NfsFixture { dir: dir.clone(), paths: Vec::new(), files: Vec::new() };
+    let mut st = state();
+    st.now_ms = now_ms;
+    st.files = (0..n).map(|_| None).collect();
+    for i in 0..n {
+        let path = dir.join(format!("f{}", i));
+        let f = std::fs::File::options().read(true).write(true).create(true).truncate(false).open(&path).expect("harness: cannot create file");
+        let ino = f.metadata().expect("harness: stat").ino();
+        let dev = DEVICES[(devs[i % devs.len()] as usize) % DEVICES.len()];
+        let ctime = st.server_now(dev);
+        st.files[i] = Some(SimFile { ino, dev, ctime_ms: ctime });
+        st.by_ino.insert(ino, i);
+        fx.paths.push(path);
+        fx.files.push(f);
+    }
+    fx
+}
+
+pub fn nfs_advance(ms: i128) {
+    state().now_ms += ms;
+}
+
+pub fn nfs_now() -> time::OffsetDateTime {
+    to_datetime(state().now_ms)
+}
+
+/// A file changed on its server: its change time becomes the server's now.
+pub fn nfs_write(slot: usize) {
+    let mut st = state();
+    if let Some(dev) = st.files.get(slot).and_then(|f| f.as_ref()).map(|f| f.dev) {
+        let t = st.server_now(dev);
+        st.files[slot].as_mut().unwrap().ctime_ms = t;
+    }
+}
+
+pub fn nfs_file_info(slot: usize) -> Option<(u64, u64)> {
+    let st = state();
+    st.files.get(slot).and_then(|f| f.as_ref()).map(|f| (f.dev, f.ctime_ms))
+}
+
+pub fn nfs_device(i: u64) -> u64 {
+    DEVICES[(i as usize) % DEVICES.len()]
+}
